@@ -63,7 +63,8 @@ class LibpassAdapter:
 
     def __init__(self, fmt):
         from libpass.hashers.sha_crypt import SHA256Hasher, SHA512Hasher
-        self.cls = {"sha256_crypt": SHA256Hasher, "sha512_crypt": SHA512Hasher}[fmt]
+        from libpass.hashers.pbkdf2 import PBKDF2SHA256Handler, PBKDF2SHA512Handler
+        self.cls = {"sha256_crypt": SHA256Hasher, "sha512_crypt": SHA512Hasher, "pbkdf2_sha256": PBKDF2SHA256Handler, "pbkdf2_sha512": PBKDF2SHA512Handler}[fmt]
 
     def verify(self, pw, stored):
         return self.cls().verify(stored, pw)
@@ -234,9 +235,13 @@ def build(sw):
                               ("ldap_pbkdf2_sha1", "{PBKDF2}", "sha1", 20), ("ldap_pbkdf2_sha256", "{PBKDF2-SHA256}", "sha256", 32), ("ldap_pbkdf2_sha512", "{PBKDF2-SHA512}", "sha512", 64)):
         for k, plen in enumerate(sw.plens()):
             rounds = [1, 2, 3, 10, 1000][k % 5]
-            salt = salt_bytes([0, 1, 16, 64][k % 4])
+            salt = salt_bytes([0, 1, 2, 16, 17, 18, 64][k % 7])          # (every length class of the base64 tail: 0, 1, 2 mod 3)
             sw.add(name, dict(fmt="pbkdf2", tag=tag, alg=alg, rounds=rounds, n=n), dict(password=content(sw.kinds(plen)[0], plen, rnd), salt=salt),
                    lambda h, pw, salt=salt, rounds=rounds: h.using(salt=salt, rounds=rounds).hash(pw))
+            if name in ("pbkdf2_sha256", "pbkdf2_sha512") and salt:
+                # the same format as computed by libpass's own hashers
+                sw.add("libpass:" + name, dict(fmt="pbkdf2", tag=tag, alg=alg, rounds=rounds, n=n), dict(password=content(sw.kinds(plen)[0], plen, rnd), salt=salt),
+                       lambda h, pw, salt=salt, rounds=rounds: h.cls(rounds=rounds).hash(pw, salt=salt), label="libpass/" + name)
     for k, plen in enumerate(sw.plens()):
         pw = content(sw.kinds(plen)[0], plen, rnd)
         salt = salt_bytes(16)
@@ -324,6 +329,7 @@ def run(chk):
         raise tlc.MachineryError(f"MC_Algo produced {len(progs)} of {len(sw.shapes)} programs")
     prims = {"bcrypt": bcrypt_prim}
     handlers = {}
+    backend_turn = {}
     restore = []
     validated = selfcheck(chk, sw, progs, prims)
     chk.extra["spec_programs_validated_against_providers"] = validated
@@ -342,6 +348,17 @@ def run(chk):
                     pass
             handlers[name] = h
         h = handlers[name]
+        # formats with several implementations of their own (bcrypt family: the bcrypt package with its $2$ / wrap-around emulations, and
+        # the pure-Python engine): the sweep alternates between the usable ones (their agreement on every key is C03's subject)
+        if hasattr(h, "set_backend") and "bcrypt" in getattr(h, "backends", ()) and not name.startswith("libpass:"):
+            nb_ = backend_turn.setdefault(name, [0])
+            nb_[0] += 1
+            for b_ in (("bcrypt", "builtin") if nb_[0] % 3 else ("builtin", "bcrypt")):      # (period 3 against groups of 4 idents: every ident meets both)
+                try:
+                    h.set_backend(b_)
+                    break
+                except Exception:
+                    continue
         pw = c["inputs"]["password"]
         shape = sw.shapes[c["sid"] - 1]
         try:
